@@ -179,7 +179,7 @@ P("C07", U_TIMERS + S_MIN + S_INPUTS + PC_DISC + PE_TWO,
   "Timers on the real poll(): NetworkInterrupted iff not yet announced and silence > notify delay (payload timeout-notify), Disconnected iff not yet sent and silence > timeout, never earlier, each once, in this order; rollback target includes the disconnect frame (min); a disconnected player's inputs are default/Disconnected exactly for frames after its last real one.",
   "The survivor's multi-tick timeline after a drop is covered only through these contracts.")
 P("C08", U_MALFORMED + U_LIVENESS + [h for h in K_QUICK if h["name"].startswith(("k_rle_stage_total", "k_rle_guard", "k_delta_total"))],
-  "On the real handle_message/on_input/decode: an input packet with a wrong number of connection statuses or ANY negative start frame is dropped with no effect at all (no ack processed, no gossip merged, nothing delivered, no reply); a decoded frame whose size does not fit the player count drops itself and everything after it in the packet (frames before it are delivered, no gap, no ack); a packet with another session's magic has no effect and does not refresh the receive timer; every byte string (<= 3 bytes through the RLE stage, <= 5 and 8 and 12 through the guard (12 bytes: three maximal run tokens - the sum, not only each run, is bounded), every delta shape <= 5 bytes) is decoded or rejected without panic/overflow/OOB and without oversized allocation.",
+  "On the real handle_message/on_input/decode: an input packet with a wrong number of connection statuses or ANY negative start frame is dropped with no effect at all (no ack processed, no gossip merged, nothing delivered, no reply); a decoded frame whose size does not fit the player count drops itself and everything after it in the packet - no gap is opened, nothing is remembered or acknowledged (instance: the first of two frames is malformed); a packet with another session's magic has no effect and does not refresh the receive timer; every byte string (<= 3 bytes through the RLE stage, <= 5 and 8 and 12 through the guard (12 bytes: three maximal run tokens - the sum, not only each run, is bounded), every delta shape <= 5 bytes) is decoded or rejected without panic/overflow/OOB and without oversized allocation.",
   "Narrow reading of 'wrong size': payload not divisible by the player count or not deserialisable; a header-valid packet with garbage payload still has its ack/gossip processed (as the code documents).")
 P("C09", U_CHECKSUM + PC_CHECKSUM + PC_CONF[1:2],
   "check_checksum_send_interval reports (and remembers) a checksum only for a frame at or below the LAST CONFIRMED frame - never on the strength of inputs not yet re-simulated - and labels it with the frame of the saved cell it was taken from, also when sparse saving makes a later saved frame stand in for the due one; compare_local_checksums_against_peers raises DesyncDetected iff both checksums of a frame below the confirmed frame exist and differ, carrying exactly the two values, and keeps reports it cannot compare yet; checksum report store of an endpoint stays within its cap under in-order reports (cap regenerated to 4), oldest entry dropped first, newest stored; send gate and comparison kernels (pc_checksum_*); the confirmed frame they rely on is the min over connected players.",
